@@ -111,25 +111,38 @@ def reset_execution():
     _opq = itertools.count()
 
 
-def caller_snapshot(max_up=8):
-    """Locals of the nearest enclosing loop-cut body / repo function frame (shallow copies of lists): the state of the
-    decomposition at the time a dependency is called (used by call-site obligations)."""
+def caller_snapshot(max_up=12):
+    """Locals of the nearest enclosing repo function frame, completed by those of the enclosing loop-cut body / prefix when the dependency is called from
+    a helper of the function under proof (shallow copies of lists): the state of the decomposition at the time a dependency is called (used by call-site
+    obligations).  The nearest frame wins on a name clash; the loop-cut frame supplies the sweep's own variables if a refactoring moved the call into a helper."""
     import sys
+
+    def grab(f):
+        snap = {k: (list(v) if isinstance(v, list) else v) for k, v in f.f_locals.items() if not k.startswith("__")}
+        for k, v in list(snap.items()):
+            fl = getattr(v, "factors", None)  # wrapper objects are updated in place by the code: freeze their factor list
+            if isinstance(fl, list):
+                snap[k + ".factors"] = list(fl)
+        return snap
     f = sys._getframe(2)
+    nearest = None
     for _ in range(max_up):
         if f is None:
             break
         name = f.f_code.co_name
         fn = f.f_code.co_filename
-        if name.endswith("__vt_body") or name.endswith("__vt_prefix") or (("/tensorly/" in fn) and "/backend/" not in fn):
-            snap = {k: (list(v) if isinstance(v, list) else v) for k, v in f.f_locals.items() if not k.startswith("__")}
-            for k, v in list(snap.items()):
-                fl = getattr(v, "factors", None)  # wrapper objects are updated in place by the code: freeze their factor list
-                if isinstance(fl, list):
-                    snap[k + ".factors"] = list(fl)
-            return snap
+        cut = name.endswith("__vt_body") or name.endswith("__vt_prefix")
+        if cut or (("/tensorly/" in fn) and "/backend/" not in fn):
+            if nearest is None:
+                nearest = grab(f)
+                if cut:
+                    return nearest
+            elif cut:
+                outer = grab(f)
+                outer.update(nearest)
+                return outer
         f = f.f_back
-    return {}
+    return nearest or {}
 
 
 def name_of(t):
